@@ -659,6 +659,12 @@ def _sym_extreme(ip, st, args, kw, want_max):
         _raise(ValueError, "max() arg is an empty sequence" if want_max else "min() arg is an empty sequence")
     w = st.fresh_int("argmax" if want_max else "argmin")
     st.assume(both(V._cmp(">=", w, 0), V._cmp("<", w, n)))
+    # contract-side hooks `st.ghost["witness_hooks"]`: called with (sequence, witness index) BEFORE the element at the
+    # witness is evaluated, so that a contract can instantiate facts it has proved for every index (per-index
+    # postconditions / loop invariants proved by universal generalisation) at this index -- e.g. "every key of this
+    # dict is positive" ahead of the division in `max(h / w for w, h in d.items())`.  Hooks may only assume such facts.
+    for hook in list(st.ghost.get("witness_hooks", [])):
+        hook(v, w)
     m = Q.seq_get(v, w)
     if not is_num(m):
         raise Unsupported("min/max over a symbolic sequence of non-numbers")
@@ -1045,6 +1051,8 @@ def _quantified_any_all(ip, st, v, want_any):
 
 
 def b_any(ip, st, x):
+    if isinstance(x, Q.GuardedSeq):
+        return x.fold_any()
     v = ip.iter_view(st, st.force(x))
     if isinstance(v, LRef):
         v = v.seq
@@ -1057,6 +1065,8 @@ def b_any(ip, st, x):
 
 
 def b_all(ip, st, x):
+    if isinstance(x, Q.GuardedSeq):
+        return x.fold_all()
     v = ip.iter_view(st, st.force(x))
     if isinstance(v, LRef):
         v = v.seq
